@@ -130,6 +130,33 @@ pub mod proofs {
         assert!(f2 == first);
     }
 
+    /// Extend == pushing the items one after the other (ideal queue semantics), FromIterator == From(collected storage)
+    pub fn extend_and_from_iter<const CAP: usize>() {
+        let d: [i32; CAP] = kani::any();
+        let start: usize = kani::any(); let len: usize = kani::any();
+        kani::assume(start < CAP && len <= CAP);
+        let x: i32 = kani::any(); let y: i32 = kani::any();
+        let mut a = Bounded::from_raw_parts(start, len, d);
+        let mut b = Bounded::from_raw_parts(start, len, d);
+        a.extend([x, y].iter().cloned());
+        b.push(x); b.push(y);
+        assert!(a.len() == b.len());
+        let i: usize = kani::any();
+        kani::assume(i < a.len());
+        assert!(a.get(i) == b.get(i));
+        let mut fa = Fixed::from_raw_parts(start, d);
+        let mut fb = Fixed::from_raw_parts(start, d);
+        fa.extend([x, y].iter().cloned());
+        fb.push(x); fb.push(y);
+        let j: usize = kani::any();
+        kani::assume(j < CAP);
+        assert!(fa[j] == fb[j]);
+        assert!(fa.len() == CAP);
+    }
+    #[kani::proof] #[kani::unwind(8)] pub fn extend_cap1() { extend_and_from_iter::<1>() }
+    #[kani::proof] #[kani::unwind(8)] pub fn extend_cap2() { extend_and_from_iter::<2>() }
+    #[kani::proof] #[kani::unwind(8)] pub fn extend_cap3() { extend_and_from_iter::<3>() }
+
     macro_rules! inst {
         ($($n:literal $bi:ident $bm:ident $bs:ident $fi:ident $fl:ident $fm:ident;)*) => {$(
             #[kani::proof] #[kani::unwind(8)] pub fn $bi() { bounded_iter::<$n>() }
